@@ -10,7 +10,7 @@ namespace WR.C10
 def plain : Style :=
   { ml := .px 0, mr := .px 0, mt := .px 0, mb := .px 0, pl := .px 0, pr := .px 0, pt := .px 0, pb := .px 0,
     bl := 0, br := 0, bt := 0, bb := 0, width := .auto, minW := .auto, maxW := .auto, height := .auto,
-    minH := .auto, maxH := .auto, sizing := .content }
+    minH := .auto, maxH := .auto, sizing := .content, lines := 0, lineH := 0 }
 
 def doc (bodyKids : List Box) : Box := .mk plain [.mk plain bodyKids]
 
@@ -19,6 +19,7 @@ def docSolid : Box :=
   doc [.mk { plain with pt := .px 2, mb := .px 6 }
         [.mk { plain with height := .px 10, mt := .px 5, mb := .px 7 } [],
          .mk { plain with height := .px 10, mt := .px (-3), mb := .px 4 } []],
+       .mk { plain with lines := 3, lineH := 12, mt := .px 30, mb := .px 10, bb := 2 } [],
        .mk { plain with height := .px 1, mt := .px 9 } []]
 
 /-- KF10-2: `<div style=margin-top:10px><div style="margin:5px 0 7px"></div><div style="margin-top:30px;height:10px"></div></div>` -/
